@@ -1,6 +1,7 @@
 import TnVerif.Props.C02
 import TnVerif.Props.C03
 import TnVerif.Generated
+import TnVerif.Lemmas.Einsum
 /-!
 # C18 — batch tensors behave as independent stacks of ordinary tensors
 
@@ -60,5 +61,186 @@ theorem elem_getitem (x : BTensor R) (key : List RawItem) (b : Nat) (hx : b < x.
 theorem batch_guards_from_source :
     Generated.batchGuards = ["anova.anova_decomposition", "automata.accepted_inputs.recursion", "derivatives.active_subspace",
       "derivatives.gradient", "derivatives.partialset", "metrics.sum"] := rfl
+
+/-! ## The batched code paths: every batched einsum of the library acts batch element by batch element
+
+The batched branches of /repo are separate code: next to every plain contraction string (`"ijk,aj->iak"`) there is
+a second literal for batch tensors (`"bijk,baj->biak"`).  `Model/Einsum.lean` gives the meaning of such strings;
+the theorems below show (1) for EVERY equation: prepending a fresh batch letter to all operands and to the output
+gives the einsum that computes, in slot `b`, the plain einsum of the `b`-th slices — nothing is mixed between batch
+elements; (2) every batched string extracted from the source is such a lift of the plain string next to it. -/
+
+open TN.Einsum
+
+/-- **no mixing in any batched einsum**: for every equation `s`, every batch letter `β` not occurring in it, all axis
+    sizes, operands and batch index `b`, entry `b :: out` of `einsum(lift β s, ops)` is entry `out` of
+    `einsum(s, [A[b] for A in ops])`.  Unbounded number of operands, letters and sizes; repeated letters (diagonals,
+    as in `"bi,biaaj->bj"`) included. -/
+theorem einsum_batch_lift (s : Spec) (β : Char) (hβ : Fresh β s) (dims : Char → Nat) (ops : List (List Nat → R))
+    (b : Nat) (out : List Nat) :
+    eval (lift β s) dims ops (b :: out) = eval s dims (ops.map (fun A idx => A (b :: idx))) out :=
+  eval_lift s β hβ dims ops b out
+
+/-- the hypotheses of `einsum_batch_lift` on the contraction of `__add__` (tensor.py:485-492):
+    `lift 'b' "ijk,aj->iak"` is the batched string, and `'b'` is fresh -/
+example : lift 'b' (parse "ijk,aj->iak") = parse "bijk,baj->biak" ∧ Fresh 'b' (parse "ijk,aj->iak") := by decide
+
+/-- the same when only some operands carry the batch axis (`mask`), the others being shared by all batch elements
+    — no contraction of the library is of this kind today (see `batched_einsums_are_lifts`) -/
+theorem einsum_batch_liftMask (s : Spec) (β : Char) (mask : List Bool) (hβ : Fresh β s) (dims : Char → Nat)
+    (ops : List (List Nat → R)) (b : Nat) (out : List Nat) :
+    eval (liftMask β mask s) dims ops (b :: out) = eval s dims (sliceMask b mask ops) out :=
+  eval_liftMask s β mask hβ dims ops b out
+
+example : liftMask 'b' [true, false] (parse "ij,j->i") = parse "bij,j->bi" ∧ Fresh 'b' (parse "ij,j->i") := by decide
+
+/-- **evaluation does not depend on the letter names**, so the alpha-normalised strings of `Generated.lean` mean the
+    same as the strings in the source: renaming by a map injective on the equation's letters, sizes renamed along -/
+theorem einsum_eval_rename (s : Spec) (ρ : Char → Char) (hρ : InjOn ρ (s.ins.flatten ++ s.out)) (dims : Char → Nat)
+    (ops : List (List Nat → R)) (out : List Nat) :
+    eval (rename ρ s) dims ops out = eval s (fun c => dims (ρ c)) ops out :=
+  eval_rename s ρ hρ dims ops out
+
+example : InjOn (fun c => if c = 'i' then 'x' else c) ((parse "ij,jk->ik").ins.flatten ++ (parse "ij,jk->ik").out) ∧
+    rename (fun c => if c = 'i' then 'x' else c) (parse "ij,jk->ik") = parse "xj,jk->xk" := by
+  unfold InjOn; decide
+
+/-- … in particular for the renaming `alpha` of extract.py (at most 26 distinct letters) -/
+theorem einsum_eval_alpha (s : Spec) (hl : s.letters.length ≤ 26) (dims : Char → Nat) (ops : List (List Nat → R))
+    (out : List Nat) :
+    eval (alphaNorm s) dims ops out = eval s (fun c => dims (alphaMap s c)) ops out :=
+  eval_alphaNorm s hl dims ops out
+
+example : alphaNorm (parse "bijk,baj->biak") = parse "abcd,aec->abed" ∧ (parse "bijk,baj->biak").letters.length ≤ 26 := by
+  decide
+
+/-- `strip` is the inverse of `lift`: it succeeds exactly on the lifted equations -/
+theorem strip_iff_lift (s t : Spec) : strip s = some t ↔ ∃ β, s = lift β t ∧ Fresh β t :=
+  ⟨strip_eq_some, fun ⟨β, hs, hf⟩ => hs ▸ strip_lift β t hf⟩
+
+/-- `torch.einsum` accepts the batched equation whenever it accepts the plain one -/
+theorem einsum_lift_wf (β : Char) (s : Spec) (hβ : Fresh β s) (hα : isLetter β = true) (hne : s.ins ≠ [])
+    (h : s.wf = true) : (lift β s).wf = true :=
+  lift_wf β s hβ hα hne h
+
+example : Fresh 'b' (parse "i,iaaj->j") ∧ isLetter 'b' = true ∧ (parse "i,iaaj->j").ins ≠ [] ∧ (parse "i,iaaj->j").wf = true ∧
+    lift 'b' (parse "i,iaaj->j") = parse "bi,biaaj->bj" := by decide
+
+private def nth (l : List String) (i : Nat) : String := l.getD i ""
+
+/-- **the (batched, plain) einsum pairs of the library**, taken by position from the per-function lists that
+    extract.py regenerates from /repo on every run: all functions having an `if <…>.batch: … else: …` with einsum
+    strings in both branches.  tensor.py: `__init__` 336/345, `__add__` 486/490, `__mul__` 703-709,
+    `__getitem__` 1115-1132, 1216-1236, 1324-1341, 1356-1382, 1397-1425, `decompress_tucker_factors` 1703-1716,
+    `torch` 1756-1766, `factor_orthogonalize` 1895-1900, `round_tucker` 2107/2109, `round_tt` 2183/2190;
+    tools.py `ttm` 320-328; matrix.py `TTMatrix.trace` 169/172. -/
+def pairs : List (String × String) :=
+  let ini := Generated.einsum_tensor_Tensor___init__
+  let add := Generated.einsum_tensor_Tensor___add__
+  let mul := Generated.einsum_tensor_Tensor___mul__
+  let gi := Generated.einsum_tensor_Tensor___getitem__
+  let dtf := Generated.einsum_tensor_Tensor_decompress_tucker_factors
+  let tor := Generated.einsum_tensor_Tensor_torch
+  let fo := Generated.einsum_tensor_Tensor_factor_orthogonalize
+  let rtk := Generated.einsum_tensor_Tensor_round_tucker
+  let rtt := Generated.einsum_tensor_Tensor_round_tt
+  let ttm := Generated.einsum_tools_ttm
+  let tr := Generated.einsum_matrix_TTMatrix_trace
+  [ (nth tr 0, nth tr 1),
+    (nth add 0, nth add 1),
+    -- __getitem__: five blocks of 4 batched followed by 4 plain strings
+    (nth gi 0, nth gi 4), (nth gi 1, nth gi 5), (nth gi 2, nth gi 6), (nth gi 3, nth gi 7),
+    (nth gi 8, nth gi 12), (nth gi 9, nth gi 13), (nth gi 10, nth gi 14), (nth gi 11, nth gi 15),
+    (nth gi 16, nth gi 20), (nth gi 17, nth gi 21), (nth gi 18, nth gi 22), (nth gi 19, nth gi 23),
+    (nth gi 24, nth gi 28), (nth gi 25, nth gi 29), (nth gi 26, nth gi 30), (nth gi 27, nth gi 31),
+    (nth gi 32, nth gi 36), (nth gi 33, nth gi 37), (nth gi 34, nth gi 38), (nth gi 35, nth gi 39),
+    (nth ini 0, nth ini 1),
+    (nth mul 0, nth mul 3), (nth mul 1, nth mul 4), (nth mul 2, nth mul 5),
+    (nth dtf 0, nth dtf 2), (nth dtf 1, nth dtf 3),
+    (nth fo 0, nth fo 2), (nth fo 1, nth fo 3),
+    (nth rtt 0, nth rtt 1),
+    (nth rtk 0, nth rtk 1),
+    (nth tor 0, nth tor 3), (nth tor 1, nth tor 4), (nth tor 2, nth tor 5),
+    (nth ttm 0, nth ttm 2), (nth ttm 1, nth ttm 3) ]
+
+/-- the per-function lists have exactly the lengths the positions above assume (no string is left over) -/
+theorem pairs_cover_lists :
+    [Generated.einsum_tensor_Tensor___init__, Generated.einsum_tensor_Tensor___add__,
+     Generated.einsum_tensor_Tensor___mul__, Generated.einsum_tensor_Tensor___getitem__,
+     Generated.einsum_tensor_Tensor_decompress_tucker_factors, Generated.einsum_tensor_Tensor_torch,
+     Generated.einsum_tensor_Tensor_factor_orthogonalize, Generated.einsum_tensor_Tensor_round_tucker,
+     Generated.einsum_tensor_Tensor_round_tt, Generated.einsum_tools_ttm,
+     Generated.einsum_matrix_TTMatrix_trace].map List.length = [2, 2, 6, 40, 4, 6, 4, 2, 2, 4, 2] := by decide
+
+/-- the check made on every pair: the batched equation is the batch lift of the plain one (`isBatchLiftOf`); both
+    are accepted by `torch.einsum`; the letter counts are within the alphabet; the plain string is in normal form -/
+def pairOK (p : String × String) : Bool :=
+  isBatchLiftOf (parse p.1) (parse p.2) && (parse p.1).wf && (parse p.2).wf &&
+    decide ((parse p.1).letters.length ≤ 27) && decide ((parse p.2).letters.length ≤ 26) &&
+    decide (alphaNorm (parse p.2) = parse p.2)
+
+/-- the pairs in blocks of 8 (the kernel evaluates each block separately, a few seconds per block) -/
+private def chunk (k : Nat) : List (String × String) := (pairs.drop (8 * k)).take 8
+
+theorem pairs_ok_0 : (chunk 0).all pairOK = true := by decide +kernel
+theorem pairs_ok_1 : (chunk 1).all pairOK = true := by decide +kernel
+theorem pairs_ok_2 : (chunk 2).all pairOK = true := by decide +kernel
+theorem pairs_ok_3 : (chunk 3).all pairOK = true := by decide +kernel
+theorem pairs_ok_4 : (chunk 4).all pairOK = true := by decide +kernel
+
+theorem pairs_ok : pairs.all pairOK = true := by
+  have e : pairs = chunk 0 ++ (chunk 1 ++ (chunk 2 ++ (chunk 3 ++ chunk 4))) := by decide
+  rw [e]
+  simp only [List.all_append, pairs_ok_0, pairs_ok_1, pairs_ok_2, pairs_ok_3, pairs_ok_4, Bool.and_self]
+
+/-- **every batched einsum string of the library is the batch lift of the plain string next to it** (up to the
+    names of the letters): its output and all its operands start with one letter that occurs nowhere else, and
+    dropping it gives the plain equation.  Re-checked against the source on every run. -/
+theorem batched_einsums_are_lifts : pairs.all (fun p => isBatchLiftOf (parse p.1) (parse p.2)) = true := by
+  apply List.all_eq_true.mpr
+  intro p hp
+  have h := List.all_eq_true.mp pairs_ok p hp
+  simp only [pairOK, Bool.and_eq_true] at h
+  exact h.1.1.1.1.1
+
+/-- **the batched code paths act element by element**: for every (batched, plain) pair of the library, all axis
+    sizes `d` (of the plain equation's letters; `alphaMap S` reads them for the batched equation's letters, `S` being
+    the batched equation without its batch letter), all operands and every batch index `b`: slot `b` of the batched
+    einsum is the plain einsum of the `b`-th slices of the operands. -/
+theorem batched_einsums_slicewise (p : String × String) (hp : p ∈ pairs) :
+    ∃ S, strip (parse p.1) = some S ∧ ∀ (d : Char → Nat) (ops : List (List Nat → R)) (b : Nat) (out : List Nat),
+      eval (parse p.1) (fun c => d (alphaMap S c)) ops (b :: out)
+        = eval (parse p.2) d (ops.map (fun A idx => A (b :: idx))) out := by
+  have h := List.all_eq_true.mp pairs_ok p hp
+  simp only [pairOK, Bool.and_eq_true, decide_eq_true_eq] at h
+  exact eval_of_isBatchLiftOf_norm _ _ h.1.1.1.1.1 h.1.1.2 h.1.2 h.2
+
+example : ("abcd,aec->abed", "abc,db->adc") ∈ pairs := by decide
+
+/-- the one batched einsum WITHOUT a plain einsum next to it: `truncated_svd` (round.py:180-183) scales the columns
+    with `einsum("bij,bj->bij")` for batches and with the broadcast product `left * svd[1][:rank]` otherwise; the
+    latter is `"ij,j->ij"`, of which the former is the lift -/
+theorem truncated_svd_scale_is_lift :
+    isBatchLiftOf (parse (nth Generated.einsum_round_truncated_svd 0)) (parse "ij,j->ij") = true := by decide
+
+/-- the plain branch of `round_tt` (tensor.py:2189-2191) is the only einsum of the library written WITHOUT `->`
+    (`"ijk,kl"`): its output is implicit (letters occurring once, alphabetically), i.e. it means `"ijk,kl->ijl"`,
+    and the normalised string in `Generated.lean` means the same -/
+theorem round_tt_implicit_output :
+    parse "ijk,kl" = parse "ijk,kl->ijl" ∧
+    alphaNorm (parse "ijk,kl") = parse (nth Generated.einsum_tensor_Tensor_round_tt 1) := by decide
+
+/-! ### completeness of `pairs` (uses `Generated.batchPairs` / `Generated.batchUnpaired`, which only the extract.py
+    proposed in REPORT.md §extract emits — drop these two theorems if that change is not merged) -/
+
+/-- **`pairs` is complete**: extract.py finds every `if <…batch…>: A else: B` of the source and pairs the einsum
+    strings of `A` and `B` by position; the result is exactly the list `pairs` above -/
+theorem pairs_complete : Generated.batchPairs.map (fun t => (t.2.1, t.2.2)) = pairs := by decide
+
+/-- … and the only einsum string in such an `if` without a counterpart in the other branch is the column scaling
+    of `truncated_svd` (see `truncated_svd_scale_is_lift`) -/
+theorem unpaired_from_source :
+    Generated.batchUnpaired.map (fun t => (t.1, t.2.2.1, t.2.2.2)) = [("round.truncated_svd", "batched", "bij,bj->bij")] := by
+  decide
 
 end TN.C18
